@@ -29,7 +29,7 @@ fn ki8_reset_equals_fresh() {
     };
     a.wrap = kani::any();
     a.wbits = kani::any();
-    a.flags = Flags(kani::any::<u8>() & 7);
+    a.flags = Flags(kani::any::<u8>() & 15);
     a.total = kani::any();
     a.length = kani::any();
     a.offset = kani::any();
@@ -56,6 +56,7 @@ fn ki8_reset_equals_fresh() {
     sa.adler = kani::any();
     let wb: i32 = kani::any();
     let cfg = InflateConfig { window_bits: wb };
+    let (wrap0, wbits0) = (sa.state.wrap, sa.state.wbits);
     let ra = reset_with_config(&mut sa, cfg);
     let rb = reset_with_config(&mut sb, cfg);
     assert!(ra == rb);
@@ -76,6 +77,8 @@ fn ki8_reset_equals_fresh() {
         assert!(x.wrap == 0 || sa.adler as u32 == (x.wrap & 1) as u32);
     } else {
         assert!(ra == ReturnCode::StreamError);
+        // a refused inflateReset2 leaves the live stream as it was (zlib stores the new values only after its checks)
+        assert!(sa.state.wrap == wrap0 && sa.state.wbits == wbits0, "a refused reset changes nothing");
     }
     assert!(ok || ra == ReturnCode::StreamError);
     kani::cover!(ra == ReturnCode::Ok && wb == 47);
